@@ -77,7 +77,7 @@ static int rot_ref_valid(const rot_family_t *f, int which, const unsigned char o
 }
 
 /* one rotation history; sp/vp = provider that signs / verifies; load_p = provider active while keys are loaded */
-static void rot_history(const char *prefix, const rot_family_t *f, const int *seq, int sp, int vp, int load_p, int free_p)
+static void rot_history(const char *prefix, const rot_family_t *f, const int *seq, int sp, int vp, int load_p, int free_p, int privchk)
 {
 	unsigned char oct[2][32];
 	vk_oct_bytes(201, oct[0], 32);
@@ -123,6 +123,30 @@ static void rot_history(const char *prefix, const rot_family_t *f, const int *se
 		jwt_checker_t *c = jwt_checker_new();
 		jwt_checker_setkey(c, f->alg, pi);
 		char *mine = rot_ref_token(f, w, oct, r), *other = rot_ref_token(f, 1 - w, oct, r);
+		/* the signing side checks its own token with the item it signed with (a private key verifies as well as signs); the
+		 * public-key checker comes straight after it: what kind of key the previous verification held must not matter */
+		jwt_checker_t *cs = jwt_checker_new();
+		int r_priv = -1, r_priv_other = -1;
+		if (privchk && !jwt_checker_setkey(cs, f->alg, si)) {
+			r_priv = mine ? jwt_checker_verify(cs, mine) : -1;
+			rot_checks++;
+			if (mine && r_priv != 0) {
+				snprintf(key, sizeof key, "%s|rotation|current-key-token-rejected-with-the-private-item|%s", prefix, f->name);
+				vf_violation(key, "%s round %d: a reference token signed with the current key %d is rejected under %s by a checker holding the private item: %s", f->name, r, w,
+					     lj_provider_name(vp), jwt_checker_error_msg(cs));
+			}
+			if (r % 2) {
+				/* ... and on every second round the private-key checker's last call is a refusal */
+				r_priv_other = other ? jwt_checker_verify(cs, other) : -1;
+				rot_checks++;
+				if (other && r_priv_other == 0) {
+					snprintf(key, sizeof key, "%s|rotation|retired-key-token-accepted|%s", prefix, f->name);
+					vf_violation(key, "%s round %d: a token signed with key %d is accepted under %s by a checker holding the private item of key %d", f->name, r, 1 - w, lj_provider_name(vp), w);
+				}
+			}
+		}
+		vf_obs(vf_hash_mix(r_priv == 0, r_priv_other == 0));
+		jwt_checker_free(cs);
 		int r_own = tok ? jwt_checker_verify(c, tok) : -1;
 		int r_mine = mine ? jwt_checker_verify(c, mine) : -1;
 		int r_other = other ? jwt_checker_verify(c, other) : -1;
@@ -156,16 +180,17 @@ static void rot_history(const char *prefix, const rot_family_t *f, const int *se
 	jwt_set_crypto_ops("openssl");
 }
 
-/* every family x sequence x (sign, verify, load) provider triple */
+/* every family x sequence x (sign, verify, load, free) provider quadruple, without and with the private-item checker */
 static void rot_enumerate(const char *prefix)
 {
 	for (int fi = 0; fi < ROT_NFAM; fi++)
 		for (int si = 0; si < ROT_NSEQ; si++)
-			for (int pv = 0; pv < 16; pv++) {
-				if (!vf_case("key rotation %s, key sequence %d, sign under %s, verify under %s, keys loaded under %s and freed under %s", ROT_FAM[fi].name, si,
-					     lj_provider_name(pv & 1), lj_provider_name((pv >> 1) & 1), lj_provider_name((pv >> 2) & 1), lj_provider_name((pv >> 3) & 1)))
+			for (int pv = 0; pv < 32; pv++) {
+				if (!vf_case("key rotation %s, key sequence %d, sign under %s, verify under %s, keys loaded under %s and freed under %s%s", ROT_FAM[fi].name, si,
+					     lj_provider_name(pv & 1), lj_provider_name((pv >> 1) & 1), lj_provider_name((pv >> 2) & 1), lj_provider_name((pv >> 3) & 1),
+					     pv & 16 ? ", each round's token first checked with the private item" : ""))
 					continue;
-				rot_history(prefix, &ROT_FAM[fi], ROT_SEQ[si], pv & 1, (pv >> 1) & 1, (pv >> 2) & 1, (pv >> 3) & 1);
+				rot_history(prefix, &ROT_FAM[fi], ROT_SEQ[si], pv & 1, (pv >> 1) & 1, (pv >> 2) & 1, (pv >> 3) & 1, pv >> 4);
 				vf_nontrivial_case();
 			}
 	vf_count("rotation_rounds", rot_rounds);
